@@ -17,7 +17,8 @@ EXPLANATION = (
     "dict, unconditional writes, no sort/filter), into outputs/<stem>.txt where <stem> is the input file's base name "
     "up to its first dot, derived from the same parsed argument that was read; (5) the reader evaluates the "
     "unmodified file text and rejects non-dicts (C11.4)."
-    ' Also: no function of the batch driver changes a mutable default argument (0:defaults).')
+    ' Also: no function of the batch driver changes a mutable default argument (0:defaults).'
+    ' No one-shot iterator is consumed twice in the driver (0:iter).')
 ASSUMPTIONS = ["values are printed with str()/repr() of Python floats, ints, lists, None, which round-trip"]
 TECHNIQUE = "provenance chains over symbolic write effects (ast)"
 
